@@ -12,3 +12,5 @@ import WsVerif.Props.C19
 import WsVerif.Model.Select
 import WsVerif.Model.SelectFixed
 import WsVerif.Props.C14
+import WsVerif.Model.History
+import WsVerif.Props.C18
